@@ -73,6 +73,16 @@ pub struct Model {
     /// short (cancelled / unwound): the engine may or may not have published
     /// them. Only used to decide when the KF1 precondition may hold.
     pub publish_uncertain: BTreeSet<u32>,
+    /// epoch in which a node was last reached by a completed, fault-free
+    /// request (as the root or anywhere in the root's from-scratch closure):
+    /// it was executed or verified then, so what it records about the
+    /// firewalls below it was brought up to date in that epoch
+    pub visited_epoch: BTreeMap<u32, u64>,
+    /// firewalls/projections-bearing nodes that have been re-executed (second
+    /// or later run): their change may still have a backward projection
+    /// pending, which only a firewall repair (or a root that records them)
+    /// carries out
+    pub reexecuted: BTreeSet<u32>,
 }
 
 impl Model {
@@ -259,7 +269,10 @@ impl<B: Backend> Runner<B> {
                 Some(_) if self.model.publish_uncertain.contains(r) => {
                     natural = false;
                 }
-                Some(&e_r) => {
+                Some(&e_x) => {
+                    // the root has not been reached since a read set below it
+                    // changed (another root absorbed the change)
+                    let e_r = self.model.visited_epoch.get(r).copied().unwrap_or(e_x).max(e_x);
                     for m in self.prev_closure(&[*r]) {
                         if self
                             .model
@@ -308,6 +321,14 @@ impl<B: Backend> Runner<B> {
             let Some(&e_f) = self.model.last_exec_epoch.get(&f) else {
                 continue;
             };
+            // A firewall that was re-executed when it was reached through an
+            // ordinary read (not through a firewall repair) keeps its backward
+            // projection pending; the stale projections above it are the same
+            // finding (KF1: nothing below a root that does not record the
+            // firewall makes the engine catch up).
+            if self.model.reexecuted.contains(&f) {
+                stale_firewall = true;
+            }
             let mut members = self.prev_closure(&[f]);
             members.extend(self.closure(f).0);
             if members.iter().any(|l| {
@@ -361,6 +382,17 @@ impl<B: Backend> Runner<B> {
         let p = &self.prog;
         let leaves = |n: u32| m.leaf(p, n);
         Oracle::new(p, &leaves).node(node)
+    }
+
+    /// every node in the from-scratch closure of a completed request has
+    /// been executed or verified in the current epoch
+    pub fn mark_visited(&mut self, roots: &[u32]) {
+        let e = self.model.epoch;
+        for r in roots {
+            for x in self.closure(*r).0 {
+                self.model.visited_epoch.insert(x, e);
+            }
+        }
     }
 
     /// does the from-scratch evaluation of `from` evaluate `target`?
@@ -637,6 +669,7 @@ impl<B: Backend> Runner<B> {
             );
         }
         self.queried.insert(node);
+        self.mark_visited(&[node]);
         // which of the affected nodes executed during this step?
         let executed: BTreeSet<u32> = {
             let log = self.sh.log.lock();
@@ -707,6 +740,7 @@ impl<B: Backend> Runner<B> {
             }
             self.queried.insert(*n);
         }
+        self.mark_visited(nodes);
         self.process_log(StepCtx::Query);
     }
 
@@ -911,6 +945,9 @@ impl<B: Backend> Runner<B> {
             };
             if changed {
                 self.model.readset_change_epoch.insert(node, e);
+            }
+            if self.model.last_completed.contains_key(&node) {
+                self.model.reexecuted.insert(node);
             }
             self.model.last_completed.insert(node, reads);
             self.model.last_exec_epoch.insert(node, e);
